@@ -238,6 +238,13 @@ theorem step_nonmicro_prog {s s' : State} {a : Act} {o : Out} (ha : ∀ th ch ch
       obtain ⟨rfl, -⟩ := hs
       left; simp
     · simp at hs
+  | routerOk c =>
+    simp only [step] at hs
+    split at hs
+    · simp only [Option.some.injEq, Prod.mk.injEq] at hs
+      obtain ⟨rfl, -⟩ := hs
+      left; simp
+    · simp at hs
   | stopReq c =>
     simp only [step] at hs
     split at hs
@@ -532,6 +539,13 @@ theorem quiet_step {s s' : State} {a : Act} {o : Out} {c : Ctx} {k : Key} {r : R
             obtain ⟨rfl, -⟩ := hs
             simp
           · simp at hs
+        | routerOk c' =>
+          simp only [step] at hs
+          split at hs
+          · simp only [Option.some.injEq, Prod.mk.injEq] at hs
+            obtain ⟨rfl, -⟩ := hs
+            simp
+          · simp at hs
         | stopReq c' =>
           simp only [step] at hs
           split at hs
@@ -704,6 +718,13 @@ theorem step_nonmicro_snaps {s s' : State} {a : Act} {o : Out} (ha' : ∀ th ch 
       obtain ⟨rfl, -⟩ := hs
       simp
     · simp at hs
+  | routerOk c' =>
+    simp only [step] at hs
+    split at hs
+    · simp only [Option.some.injEq, Prod.mk.injEq] at hs
+      obtain ⟨rfl, -⟩ := hs
+      simp
+    · simp at hs
   | stopReq c' =>
     simp only [step] at hs
     split at hs
@@ -789,6 +810,13 @@ theorem prog_run_other : ∀ (as : List Act) {s s' : State} (th : Th), run s as 
                   · rfl
             · simp at heq
           | connect a p =>
+            simp only [step] at heq
+            split at heq
+            · simp only [Option.some.injEq, Prod.mk.injEq] at heq
+              obtain ⟨rfl, -⟩ := heq
+              simp
+            · simp at heq
+          | routerOk c =>
             simp only [step] at heq
             split at heq
             · simp only [Option.some.injEq, Prod.mk.injEq] at heq
